@@ -134,6 +134,13 @@ class Slicer:
             local = x
             first_field = None
         body = bi.body
+        # a field of a value built by one aggregate in this body (a spliced coroutine's captured variable, a struct
+        # literal): only that field's operand feeds it
+        if first_field is not None and not bi.is_env(local):
+            op = self._agg_field(bi, local, first_field)
+            if op is not None:
+                self._visit(body_id, op, env, res, seen, depth)
+                return
         # closure environment
         if bi.is_env(local):
             if first_field is not None:
@@ -200,6 +207,29 @@ class Slicer:
                     self._call(body_id, bb, t, env, res, seen, depth)
                 elif t.k == "yield":
                     res.roots.add(("unknown", body_id, "resume"))
+
+    def _agg_field(self, bi, local, field, depth=0):
+        """operand stored in `field` of the aggregate that `local` is a (moved / borrowed) copy of; None if not exactly one"""
+        if depth > 12:
+            return None
+        defs = bi.defs.get(local, [])
+        if len(defs) != 1 or bi.partial_defs(local):
+            return None
+        bb, i = defs[0]
+        if i < 0:
+            return None
+        rv = bi.stmt(bb, i).rv
+        if rv.k == "use" and rv.ops[0].place is not None and not [p for p in rv.ops[0].place.proj if p != "deref"]:
+            return self._agg_field(bi, rv.ops[0].place.local, field, depth + 1)
+        if rv.k == "ref" and not [p for p in rv.place.proj if p != "deref"]:
+            return self._agg_field(bi, rv.place.local, field, depth + 1)
+        if rv.k == "agg" and rv.j.get("ak") in ("closure", "coroutine", "adt", "tuple"):
+            names = rv.j.get("fields") or []
+            if rv.j.get("ak") == "tuple":
+                names = [str(k) for k in range(len(rv.ops))]
+            if field in names:
+                return rv.ops[names.index(field)]
+        return None
 
     def _borrow_uses(self, bi, ref_local, depth):
         """call sites that receive the reference held in ref_local (following reborrows / moves)"""
